@@ -124,7 +124,14 @@ def handle (op : String) (j : Json) : Except String Json := do
     let U := paths.map (·.1)
     let hyp := Json.bool (ImportLoop.closedWorld w U init)
     let bound := Json.num (JsonNumber.fromNat (ImportLoop.total w U (ImportLoop.initSt init) + U.length + 4))
-    match ImportLoop.fromPath w fuel init with
+    -- "api": "content" = `RailsConfig.from_content` on the .yml entries and the first .co file of `init`
+    let isContent := match j.getObjVal? "api" with | .ok (.str "content") => true | _ => false
+    let res := if isContent then
+        match ImportLoop.coFiles init with
+        | main :: _ => ImportLoop.fromContent w fuel (ImportLoop.ymlPaths init) main
+        | [] => some (.error .index)
+      else ImportLoop.fromPath w fuel init
+    match res with
     | none => pure (Json.mkObj [("fuel", .bool true), ("closed", hyp), ("bound", bound)])
     | some (.error (.unresolved p)) => pure (Json.mkObj [("closed", hyp), ("bound", bound), ("err", Json.arr #[.str "unresolved", .str p])])
     | some (.error (.parse f)) => pure (Json.mkObj [("closed", hyp), ("bound", bound), ("err", Json.arr #[.str "parse", Json.num (JsonNumber.fromNat f)])])
